@@ -8,7 +8,31 @@ import subprocess
 
 from . import common, genrun
 
-RUSTFMT = os.environ.get("VERIF_RUSTFMT") or shutil.which("rustfmt") or os.path.expanduser("~/.cargo/bin/rustfmt")
+def _find_rustfmt():
+    """A rustfmt that actually RUNS in this environment.  ~/.cargo/bin/rustfmt is a rustup proxy that
+    needs HOME / a default toolchain; the toolchain's own binary does not.  A formatter that cannot
+    format a trivial valid file is treated as absent (-> inconclusive, never 'does not parse')."""
+    import glob
+    import tempfile
+
+    cands = [os.environ.get("VERIF_RUSTFMT"), shutil.which("rustfmt"), os.path.expanduser("~/.cargo/bin/rustfmt"), "/root/.cargo/bin/rustfmt"]
+    cands += sorted(glob.glob("/root/.rustup/toolchains/stable-*/bin/rustfmt")) + sorted(glob.glob(os.path.expanduser("~/.rustup/toolchains/stable-*/bin/rustfmt")))
+    for c in cands:
+        if not c or not os.path.exists(c):
+            continue
+        try:
+            with tempfile.TemporaryDirectory() as d:
+                f = os.path.join(d, "probe.rs")
+                with open(f, "w") as fh:
+                    fh.write("pub struct Probe { pub a: u32 }\n")
+                if subprocess.run([c, "--edition", "2021", f], capture_output=True, text=True, timeout=60).returncode == 0:
+                    return c
+        except Exception:
+            continue
+    return "/nonexistent/rustfmt"
+
+
+RUSTFMT = _find_rustfmt()
 
 
 def norm_doc(s):
